@@ -306,7 +306,7 @@ def run_case(case):
       rec.count("forward_worlds_compared")
       rec.count("fobs_" + meta.compare_obs(rec, tag, fref["obs"], fobs, w, w, sig_prefix="forward:", tol_viol=tvf))
       rec.count("fcontacts_" + meta.compare_contacts(rec, tag, fref["con"][w], mw.contacts(df, w), sig_prefix="forward:", tol_viol=tvf))
-      rec.count("frows_" + meta.compare_rows(rec, tag, fref["rows"][w], mw.efc_rows(mjm, m, df, w), sig_prefix="forward:", with_force=True, tol_viol=tvf))
+      rec.count("frows_" + meta.compare_rows(rec, tag, fref["rows"][w], mw.efc_rows(mjm, m, df, w), sig_prefix="forward:", with_force=False, tol_viol=tvf))  # row forces are judged through qfrc_constraint (individual multipliers of redundant rows are poorly determined)
   for mode, key in schedules:
     d = fresh()
     for t in range(T):
